@@ -18,6 +18,8 @@ def run(ctx):
 
 
 def search(ctx):
+    from harness import comp_executor
+    comp_executor.search(ctx, "C07")
     comp_engine.search(ctx, "C07")
 
 
